@@ -326,6 +326,34 @@ thread_local! {
     static LAST_PANIC: RefCell<String> = RefCell::new(String::new());
 }
 
+/// Number of steps begun so far (a parallel block is one step).  A watchdog thread ends the process when one step
+/// runs longer than RT_STEP_TIMEOUT seconds (default 20): code under test that does not terminate -- an iterator that
+/// never returns None under `collect`, a `next` cycle -- must not stall the whole check; the orchestrator completes the
+/// dangling event line like after any other death of the process and resumes after that step.
+static BEAT: std::sync::atomic::AtomicU64 = std::sync::atomic::AtomicU64::new(0);
+
+fn start_watchdog() {
+    if cfg!(miri) {
+        return; // Miri wants every thread joined at exit; its runs are bounded by the orchestrator's process timeout
+    }
+    let limit: u64 = std::env::var("RT_STEP_TIMEOUT").ok().and_then(|s| s.parse().ok()).unwrap_or(20);
+    std::thread::spawn(move || {
+        let mut last = u64::MAX;
+        let mut since = std::time::Instant::now();
+        loop {
+            std::thread::sleep(std::time::Duration::from_millis(250));
+            let b = BEAT.load(std::sync::atomic::Ordering::Relaxed);
+            if b != last {
+                last = b;
+                since = std::time::Instant::now();
+            } else if b > 0 && since.elapsed().as_secs() >= limit {
+                eprintln!("RT-TIMEOUT: step {b} runs longer than {limit} s");
+                std::process::exit(3);
+            }
+        }
+    });
+}
+
 fn jstr(s: &str) -> String {
     let mut out = String::from("\"");
     for c in s.chars() {
@@ -568,6 +596,7 @@ pub fn main(cases: Vec<fn() -> Case>) {
         }
         LAST_PANIC.with(|m| *m.borrow_mut() = msg);
     }));
+    start_watchdog();
     let resume: Option<(u32, usize)> = if args.len() >= 5 {
         Some((args[3].parse().unwrap(), args[4].parse().unwrap()))
     } else {
@@ -730,6 +759,7 @@ pub fn main(cases: Vec<fn() -> Case>) {
                     }
                     continue;
                 }
+                BEAT.fetch_add(1, std::sync::atomic::Ordering::Relaxed);
                 exec_step(&t, slot, step, sig, kind, case, &proj, &mut its, &mut strbuf, &mut out);
             }
             "p" => {
@@ -744,6 +774,7 @@ pub fn main(cases: Vec<fn() -> Case>) {
                     let nthreads = par_prog.iter().map(|(k, _)| *k).max().unwrap() + 1;
                     assert!(nthreads <= SLOTS, "rt: too many threads");
                     out.w(&format!("{{\"ev\":\"par\",\"case\":{},\"step\":{step},\"sig\":\"{par_sig}\",\"threads\":{nthreads},", case.id));
+                    BEAT.fetch_add(1, std::sync::atomic::Ordering::Relaxed);
                     let barrier = std::sync::Barrier::new(nthreads);
                     let bufs: Vec<String> = std::thread::scope(|sc| {
                         let handles: Vec<_> = (0..nthreads)
@@ -780,4 +811,5 @@ pub fn main(cases: Vec<fn() -> Case>) {
         }
     }
     out.w("");
+    BEAT.store(0, std::sync::atomic::Ordering::Relaxed);
 }
